@@ -17,6 +17,7 @@ func checkC03(c *Check) {
 	c.updateBodyPrivate("C03.3 delivered-slice-private")
 	c.handlerDiscipline("C03.4 handler-discipline")
 	c.holdTimerDrainAndReset("C03.4 no-spurious-expiry")
+	c.writeUpdateContract("C03.4 handler-not-wedged")
 	// single sender / single receiver of the message channel
 	p := c.P
 	senders, receivers := map[string]bool{}, map[string]bool{}
